@@ -105,6 +105,8 @@ def run_session(sess):
                     np.random.seed(int(v))
                 elif act == 'draw':
                     np.random.random(int(v) + 1)
+                elif act == 'gauss':
+                    np.random.normal(size=2 * int(v) + 1)        # an odd number of deviates: one stays cached in the state
                 else:
                     raise ValueError(act)
         except Exception as e:
